@@ -334,6 +334,7 @@ def proc_map(harness_path, func, items, chunk=500, workers=None, timeout=10.0):
 # --------------------------------------------------------------------------
 
 _REPLAY_RE = re.compile(r'^<<"REPLAY", "(.*)">>$')
+_DISAGREE_RE = re.compile(r'^<<"DISAGREE", "(.*)">>$')
 
 
 def _unescape_tla(s):
@@ -377,6 +378,7 @@ class TlcResult:
         self.wall = 0.0
         self.coverage = {}
         self.lines = []
+        self.disagree = []
 
 
 def run_tlc(module, cfg=None, workers=8, simulate=None, depth=None, timeout=1800,
@@ -435,6 +437,13 @@ def run_tlc(module, cfg=None, workers=8, simulate=None, depth=None, timeout=1800
                     on_replay(obj)
                 else:
                     res.replays.append(obj)
+                continue
+            m = _DISAGREE_RE.match(line)
+            if m:
+                try:
+                    res.disagree.append(json.loads(_unescape_tla(m.group(1))))
+                except Exception:
+                    res.disagree.append({"raw": line[:2000]})
                 continue
             if keep_lines:
                 res.lines.append(line)
@@ -530,7 +539,8 @@ def write_evidence(pid, tier, level, coverage, wall, violations=0, assumptions=N
 
 
 def load_findings(pid):
-    path = os.path.join(VERIF, "known_findings.jsonl")
+    # VERIF_FINDINGS: another findings file (trying out a fix diff on a scratch copy of the repository)
+    path = os.environ.get("VERIF_FINDINGS") or os.path.join(VERIF, "known_findings.jsonl")
     out = []
     if os.path.exists(path):
         for line in open(path):
@@ -552,6 +562,7 @@ class Reporter:
         self.findings = load_findings(pid)
         self.matched = {}
         self.violations = []
+        shutil.rmtree(os.path.join(REPLAYS, pid), ignore_errors=True)   # replay files of earlier runs
 
     def disagree(self, case, key=None):
         """case: JSON-serialisable description.  key: the specific signature of
